@@ -57,6 +57,12 @@ def lit(kind, seq):
     return "[" + ", ".join(str(x) for x in seq) + "]"
 
 
+class Shape(Exception):
+    def __init__(self, got):
+        Exception.__init__(self, repr(got))
+        self.got = got
+
+
 class Checker:
     def __init__(self, run):
         self.run = run
@@ -96,6 +102,52 @@ def check_read_record(ck, rec, kinds=("str", "list")):
             # identity s[0 to k] + s[k to *] == s
             ck.expect(f"{L}[0 to {i}] + {L}[{i} to *] == {L}", ("val", True), "split-identity")
         ck.expect(f"length({L})", ("val", n), "length")
+        # the same read through a variable index, evaluated twice, and through one function applied to two
+        # sequences: a position is a value, reading does not change it and the second read gives the same answer
+        for k in range(w):
+            i = lo + k
+            exp = rec["index"][k]
+            one = "'#E'" if exp == NOVAL else (str(exp) if kind == "list" else "'" + CH[exp] + "'")
+            ck.expect(f"def k = {i}; def o = {L}; [do o[k] catch all '#E' end, do o[k] catch all '#E' end, k] == [{one}, {one}, {i}]",
+                      ("val", True), "index-twice")
+            te = lit(kind, rec["toend"][k])
+            ck.expect(f"def k = {i}; def o = {L}; [o[k to *], o[k to *], {'substr' if kind == 'str' else 'sublist'}(o, k), k] == [{te}, {te}, {te}, {i}]",
+                      ("val", True), "slice-twice")
+        if kind == "str" and n:
+            # what a read hands out is the element, not a handle on a shared object: changing it afterwards
+            # does not change what the next read (of this or of an equal literal) returns
+            f1 = "'" + CH[s[0]] + "'"
+            ck.expect(f"def o = {L}; def c = o[0]; c[0] = 'e'; [o[0], o, {L}[0]] == [{f1}, {L}, {f1}]", ("val", True), "read-result-independent")
+        other = lit(kind, list(s) + [1])
+        for i in (-1, 0, n - 1, -n):
+            if n == 0:
+                break
+            k = i - lo
+            if not (0 <= k < w) or rec["index"][k] == NOVAL:
+                continue
+            e1 = rec["index"][k]
+            e2 = 1 if i == -1 else (s[i] if i >= 0 else (s[i + 1] if i + 1 < 0 else s[0]))
+            # `at` applied first to s, then to s + [1]: for i = -1 the second answer is the appended element
+            if i == -n:
+                e2 = 1 if n + 1 == 1 else (list(s) + [1])[-n]
+            w1 = str(e1) if kind == "list" else "'" + CH[e1] + "'"
+            w2 = str(e2) if kind == "list" else "'" + CH[e2] + "'"
+            ck.expect(f"def at(o) o[{i}]; [at({L}), at({other}), at({L})] == [{w1}, {w2}, {w1}]", ("val", True), "index-in-function")
+        if kind == "list" and n:
+            # elements spelled as decimals at the odd positions: equal values, so find / find_last / in
+            # answer as for the int spelling (equality across int and decimal is C06's statement)
+            M = "[" + ", ".join((str(x) + ".0") if p % 2 else str(x) for p, x in enumerate(s)) + "]"
+            M2 = "[" + ", ".join(str(x) if p % 2 else (str(x) + ".0") for p, x in enumerate(s)) + "]"
+            for pi, part in enumerate(rec["parts"]):
+                if len(part) != 1:
+                    continue
+                f0 = rec["find"][pi][0][0]
+                fl = rec["findlast_default"][pi]
+                for LL in (M, M2):
+                    for P in (str(part[0]), str(part[0]) + ".0"):
+                        ck.expect(f"find({LL}, {P})", ("val", f0), "find-mixed-numerals")
+                        ck.expect(f"find_last({LL}, {P})", ("val", fl), "find_last-mixed-numerals")
+                        ck.expect(f"{P} in {LL}", ("val", f0 >= 0), "in-vs-find")
         for pi, part in enumerate(rec["parts"]):
             if kind == "list" and len(part) != 1:
                 continue
@@ -104,9 +156,8 @@ def check_read_record(ck, rec, kinds=("str", "list")):
             ck.expect(f"find_last({L}, {P})", ("val", fl), "find_last")
             f0 = rec["find"][pi][0][0]
             ck.expect(f"find({L}, {P})", ("val", f0), "find")
+            ck.expect(f"{P} in {L}", ("val", f0 >= 0), "in-vs-find")      # (C18 also covers strings)
             if kind == "str":
-                # `x in s` / contains agree with find >= 0 (C18 also covers this)
-                ck.expect(f"{P} in {L}", ("val", f0 >= 0), "in-vs-find")
                 for st in range(0, n + 1):
                     f, g = rec["find"][pi][st]
                     ck.expect(f"find({L}, {P}, start={st})", ("val", f), "find-start")
@@ -173,99 +224,121 @@ def record_traces(run, rng, ntraces, maxlen, maxidx, ksym):
 
         def read_obj():
             o = absval.to_py(it.interpret("o", "c15"))
-            if kind == "list":
-                return [x for x in o[1]]
-            inv = {c: k for k, c in CH.items()}
-            return [inv[c] for c in o[1]]
+            try:
+                if kind == "list":
+                    return [x for x in o[1]]
+                inv = {c: k for k, c in CH.items()}
+                return [inv[c] for c in o[1]]
+            except (KeyError, TypeError, IndexError):
+                raise Shape(o)
 
         def unseq(p):
-            if p[0] == "list":
-                return list(p[1])
-            inv = {c: k for k, c in CH.items()}
-            return [inv[c] for c in p[1]]
+            # a result the sequence model has no place for (not a sequence, an element that is not one of
+            # the symbols) is a finding in itself: Shape carries it to the end of the step
+            try:
+                if p[0] == "list":
+                    out = list(p[1])
+                    if not all(isinstance(x, int) and not isinstance(x, bool) for x in out):
+                        raise Shape(p)
+                    return out
+                if p[0] != "str":
+                    raise Shape(p)
+                inv = {c: k for k, c in CH.items()}
+                return [inv[c] for c in p[1]]
+            except (KeyError, TypeError, IndexError):
+                raise Shape(p)
 
-        for _step in range(rng.randint(4, 12)):
-            ri = lambda: rng.randint(-maxidx, maxidx)  # noqa: E731
-            ops = ["index", "slice", "toend", "find", "find_last", "length", "concat_split",
-                   "slice", "assign"]
-            if kind == "list":
-                ops += ["insert_at", "delete_at", "insert_at", "delete_at"]
-            op = rng.choice(ops)
-            if op == "index":
-                i = ri()
-                src = f"o[{i}]"
-                o = expr_outcome(it, src)
-                e = {"op": op, "i": i, "ok": o[0] == "val", "r": 0}
-                if o[0] == "val":
-                    e["r"] = unseq(("list", (o[1],)) if kind == "list" else o[1])[0]
-            elif op == "slice":
-                a, b = ri(), ri()
-                form = rng.choice(["to", "fn"])
-                fn = "substr" if kind == "str" else "sublist"
-                src = f"o[{a} to {b}]" if form == "to" else f"{fn}(o, {a}, {b})"
-                o = expr_outcome(it, src)
-                e = {"op": op, "a": a, "b": b, "ok": o[0] == "val", "r": unseq(o[1]) if o[0] == "val" else []}
-            elif op == "toend":
-                a = ri()
-                form = rng.choice(["to", "fn"])
-                fn = "substr" if kind == "str" else "sublist"
-                src = f"o[{a} to *]" if form == "to" else f"{fn}(o, {a})"
-                o = expr_outcome(it, src)
-                e = {"op": op, "a": a, "ok": o[0] == "val", "r": unseq(o[1]) if o[0] == "val" else []}
-            elif op in ("find", "find_last"):
-                m = 1 if kind == "list" else rng.randint(1, 3)
-                t = [rng.randint(1, ksym) for _ in range(m)]
-                P = val(t[0]) if kind == "list" else lit("str", t)
-                nn = len(read_obj())
-                if op == "find":
-                    if rng.random() < 0.5:
-                        st = rng.randint(0, nn)
-                        src = f"find(o, {P}, start={st})"
+        try:
+            for _step in range(rng.randint(4, 12)):
+                ri = lambda: rng.randint(-maxidx, maxidx)  # noqa: E731
+                ops = ["index", "slice", "toend", "find", "find_last", "length", "concat_split",
+                       "slice", "assign"]
+                if kind == "list":
+                    ops += ["insert_at", "delete_at", "insert_at", "delete_at"]
+                op = rng.choice(ops)
+                if op == "index":
+                    i = ri()
+                    src = f"o[{i}]"
+                    o = expr_outcome(it, src)
+                    e = {"op": op, "i": i, "ok": o[0] == "val", "r": 0}
+                    if o[0] == "val":
+                        got = unseq(("list", (o[1],)) if kind == "list" else o[1])
+                        if len(got) != 1:
+                            raise Shape(o[1])
+                        e["r"] = got[0]
+                elif op == "slice":
+                    a, b = ri(), ri()
+                    form = rng.choice(["to", "fn"])
+                    fn = "substr" if kind == "str" else "sublist"
+                    src = f"o[{a} to {b}]" if form == "to" else f"{fn}(o, {a}, {b})"
+                    o = expr_outcome(it, src)
+                    e = {"op": op, "a": a, "b": b, "ok": o[0] == "val", "r": unseq(o[1]) if o[0] == "val" else []}
+                elif op == "toend":
+                    a = ri()
+                    form = rng.choice(["to", "fn"])
+                    fn = "substr" if kind == "str" else "sublist"
+                    src = f"o[{a} to *]" if form == "to" else f"{fn}(o, {a})"
+                    o = expr_outcome(it, src)
+                    e = {"op": op, "a": a, "ok": o[0] == "val", "r": unseq(o[1]) if o[0] == "val" else []}
+                elif op in ("find", "find_last"):
+                    m = 1 if kind == "list" else rng.randint(1, 3)
+                    t = [rng.randint(1, ksym) for _ in range(m)]
+                    P = val(t[0]) if kind == "list" else lit("str", t)
+                    nn = len(read_obj())
+                    if op == "find":
+                        if rng.random() < 0.5:
+                            st = rng.randint(0, nn)
+                            src = f"find(o, {P}, start={st})"
+                        else:
+                            st = 0
+                            src = f"find(o, {P})"
                     else:
-                        st = 0
-                        src = f"find(o, {P})"
-                else:
-                    if rng.random() < 0.5 and nn > 0:
-                        st = rng.randint(0, nn - 1)
-                        src = f"find_last(o, {P}, start={st})"
-                    else:
-                        st = nn - 1
-                        src = f"find_last(o, {P})"
-                o = expr_outcome(it, src)
-                e = {"op": op, "t": t, "start": st, "ok": o[0] == "val",
-                     "r": o[1] if o[0] == "val" and isinstance(o[1], int) else -99}
-            elif op == "length":
-                src = "length(o)"
-                o = expr_outcome(it, src)
-                e = {"op": op, "ok": o[0] == "val", "r": o[1] if o[0] == "val" and isinstance(o[1], int) else -99}
-            elif op == "concat_split":
-                k = ri()
-                src = f"o[0 to {k}] + o[{k} to *]"
-                o = expr_outcome(it, src)
-                e = {"op": op, "k": k, "ok": o[0] == "val", "r": unseq(o[1]) if o[0] == "val" else []}
-            elif op == "insert_at":
-                i, v = ri(), rng.randint(1, ksym)
-                src = f"insert_at(o, {i}, {v})"
-                o = expr_outcome(it, src)
-                e = {"op": op, "i": i, "v": v, "ok": o[0] == "val", "post": read_obj()}
-            elif op == "delete_at":
-                i = ri()
-                src = f"delete_at(o, {i})"
-                o = expr_outcome(it, src)
-                r = NOVAL
-                if o[0] == "val" and o[1] is not None:
-                    r = o[1]
-                e = {"op": op, "i": i, "ok": o[0] == "val", "r": r, "post": read_obj()}
-            else:  # assign
-                i, v = ri(), rng.randint(1, ksym)
-                src = f"o[{i}] = {val(v)}"
-                o = expr_outcome(it, src)
-                e = {"op": op, "i": i, "v": v, "ok": o[0] == "val", "post": read_obj()}
-            if o[0] == "host":
-                run.violation(f"trace:{kind}:{src}:host:{o[1]}",
-                              f"host exception {o[1]} from {src} on {lit(kind, read_obj())}",
-                              {"kind": "expr-on", "obj": lit(kind, read_obj()), "src": src})
-            ev(e, f"{kind} {src}")
+                        if rng.random() < 0.5 and nn > 0:
+                            st = rng.randint(0, nn - 1)
+                            src = f"find_last(o, {P}, start={st})"
+                        else:
+                            st = nn - 1
+                            src = f"find_last(o, {P})"
+                    o = expr_outcome(it, src)
+                    e = {"op": op, "t": t, "start": st, "ok": o[0] == "val",
+                         "r": o[1] if o[0] == "val" and isinstance(o[1], int) else -99}
+                elif op == "length":
+                    src = "length(o)"
+                    o = expr_outcome(it, src)
+                    e = {"op": op, "ok": o[0] == "val", "r": o[1] if o[0] == "val" and isinstance(o[1], int) else -99}
+                elif op == "concat_split":
+                    k = ri()
+                    src = f"o[0 to {k}] + o[{k} to *]"
+                    o = expr_outcome(it, src)
+                    e = {"op": op, "k": k, "ok": o[0] == "val", "r": unseq(o[1]) if o[0] == "val" else []}
+                elif op == "insert_at":
+                    i, v = ri(), rng.randint(1, ksym)
+                    src = f"insert_at(o, {i}, {v})"
+                    o = expr_outcome(it, src)
+                    e = {"op": op, "i": i, "v": v, "ok": o[0] == "val", "post": read_obj()}
+                elif op == "delete_at":
+                    i = ri()
+                    src = f"delete_at(o, {i})"
+                    o = expr_outcome(it, src)
+                    r = NOVAL
+                    if o[0] == "val" and o[1] is not None:
+                        r = o[1]
+                    e = {"op": op, "i": i, "ok": o[0] == "val", "r": r, "post": read_obj()}
+                else:  # assign
+                    i, v = ri(), rng.randint(1, ksym)
+                    src = f"o[{i}] = {val(v)}"
+                    o = expr_outcome(it, src)
+                    e = {"op": op, "i": i, "v": v, "ok": o[0] == "val", "post": read_obj()}
+                if o[0] == "host":
+                    run.violation(f"trace:{kind}:{src}:host:{o[1]}",
+                                  f"host exception {o[1]} from {src} on {lit(kind, read_obj())}",
+                                  {"kind": "expr-on", "obj": lit(kind, read_obj()), "src": src})
+                ev(e, f"{kind} {src}")
+        except Shape as sh:
+            run.violation(f"trace:{kind}:shape:{sh.got!r}"[:200],
+                          f"result-shape: a read on {lit(kind, cur)} (or a later state of it) returned {sh.got!r}, "
+                          "which is not a sequence over the symbols it was built from",
+                          {"kind": "expr-on", "obj": lit(kind, cur), "src": "o"})
     return events, meta
 
 
